@@ -394,9 +394,9 @@ func sameOutcome(a, b outcome) bool {
 // ---------- replay data ----------
 
 type replayData struct {
-	Mode    string `json:"mode"` // "seq" | "roundtrip"
-	Backend string `json:"backend"`
-	Path    []Op   `json:"path,omitempty"`
+	Mode    string  `json:"mode"` // "seq" | "roundtrip"
+	Backend string  `json:"backend"`
+	Path    []Op    `json:"path,omitempty"`
 	RT      *rtCase `json:"rt,omitempty"`
 }
 
@@ -632,7 +632,7 @@ var (
 
 func buildRT(rc rtCase) *rspb.Release {
 	r := &rspb.Release{Name: rc.Name, Namespace: "default", Version: rc.Rev,
-		Info:  &rspb.Info{Status: rspb.Status(rc.Status), Description: "desc ü", Notes: "notes\nline2"},
+		Info: &rspb.Info{Status: rspb.Status(rc.Status), Description: "desc ü", Notes: "notes\nline2"},
 		Chart: &chart.Chart{Metadata: &chart.Metadata{Name: "ch", Version: "1.2.3", APIVersion: "v2", Description: "d", Keywords: []string{"k1", "k2"}, AppVersion: "9"},
 			Templates: []*chart.File{{Name: "templates/a.yaml", Data: []byte("a: {{ .Values.x }}\n")}},
 			Files:     []*chart.File{{Name: "bin.dat", Data: []byte{0, 255, 1, 2}}},
